@@ -14,7 +14,7 @@ SCR = pathlib.Path("/tmp/seedchk")
 SCR.mkdir(exist_ok=True)
 SCRATCH = os.environ.get("SEED_SCRATCH") == "1"
 BASE = os.environ.get("SEED_BASE", "HEAD")
-EXTRA = {"C14": ["C14", "C07"], "C07": ["C07", "C14"], "C09": ["C09", "C18"], "C03": ["C03", "C19"], "C19": ["C19", "C03"],
+EXTRA = {"C14": ["C14", "C07"], "C07": ["C07", "C14"], "C09": ["C09", "C18"], "C03": ["C03", "C19", "C01", "C10"], "C19": ["C19", "C03"],
          "C11": ["C11", "C10"], "C16": ["C16", "C02", "C10"], "C02": ["C02", "C16", "C03"], "C01": ["C01", "C10", "C11", "C15"],
          "C13": ["C13", "C10"], "C04": ["C04", "C03"], "C05": ["C05", "C11", "C14"], "C15": ["C15", "C10"], "C17": ["C17", "C13", "C10"],
          "C18": ["C18", "C09"], "C12": ["C12", "C10"], "C08": ["C08", "C10"], "C10": ["C10", "C11"]}
@@ -77,11 +77,8 @@ def detect_scratch(pid, patch):
     if a.returncode:
         sh(f"git -C /repo worktree remove --force {wt}")
         return {"error": a.stderr}
-    save = pathlib.Path(f"/tmp/seedchk/evsave-{pid}")
-    save.mkdir(exist_ok=True)
-    for f in (VERIF / "evidence").glob("*.json"):
-        shutil.copy(f, save / f.name)
-    env = dict(os.environ, PEGEN_REPO=str(wt), PYTHONPATH=f"{wt}/src:{VERIF}/harness", PYTHONHASHSEED="0", PYTHONDONTWRITEBYTECODE="1")
+    env = dict(os.environ, PEGEN_REPO=str(wt), PYTHONPATH=f"{wt}/src:{VERIF}/harness", PYTHONHASHSEED="0", PYTHONDONTWRITEBYTECODE="1",
+               VERIF_EVIDENCE_DIR=f"/tmp/seedchk/ev-{pid}")
     try:
         for cid in EXTRA.get(pid, [pid]):
             r = sh(f"/venv/bin/python harness/run_check.py {cid} --tier quick", cwd=VERIF, env=env)
@@ -90,8 +87,6 @@ def detect_scratch(pid, patch):
     finally:
         sh(f"git -C /repo worktree remove --force {wt}")
         shutil.rmtree(wt, ignore_errors=True)
-        for f in save.glob("*.json"):
-            shutil.copy(f, VERIF / "evidence" / f.name)
     return out
 
 
